@@ -281,7 +281,9 @@ static void elementwise(vh::Rng& r, int rounds) {
 static void reductions(vh::Rng& r, int n) {
     arr_real x(n), y(n);
     arr_cmplx z(n), w(n);
-    const bool wide = r.coin();
+    //one block in ten is degenerate: every element zero (with either sign), or every element the same value
+    const int degenerate = (r.below(10) == 0) ? 1 + int(r.below(2)) : 0;
+    const bool wide = degenerate ? false : r.coin();
     //non-wide data sit on a mean offset of up to 1e8 standard deviations (cancellation in one-pass variance formulas)
     const double offset = wide ? 0.0 : ((r.below(3) == 0) ? 0.5 : r.logmag(1.0, 1e8));
     for (int i = 0; i < n; ++i) {
@@ -294,7 +296,16 @@ static void reductions(vh::Rng& r, int n) {
             x[i] = 1e100;
         }
     }
-    vh::begin_case("reductions", "n=%d wide=%d", n, int(wide));
+    if (degenerate) {
+        const double cv = (degenerate == 1) ? 0.0 : r.gauss() * 3;
+        const cmplx_t cz = (degenerate == 1) ? cmplx_t{0, 0} : cmplx_t{r.gauss(), r.gauss()};
+        for (int i = 0; i < n; ++i) {
+            x[i] = (degenerate == 1 && (i % 2)) ? -0.0 : cv;
+            z[i] = (degenerate == 1 && (i % 3 == 1)) ? cmplx_t{-0.0, 0.0} : cz;
+        }
+        vh::obs_add(degenerate == 1 ? "reduction_blocks_all_zero" : "reduction_blocks_constant");
+    }
+    vh::begin_case("reductions", "n=%d wide=%d degenerate=%d", n, int(wide), degenerate);
     const std::string ctx = vh::fmt("(n=%d, %s values, seed %llu)", n, wide ? "1e+-100 magnitudes and special points" : vh::fmt("gaussian + offset %.3g", offset).c_str(), (unsigned long long)vh::g.seed);
     ld sx = 0, sax = 0, sxx = 0, mxv = -INFINITY, mnv = INFINITY;
     int imx = 0, imn = 0;
